@@ -409,7 +409,9 @@ static void case_cplx_to_tnx32(uint64_t m, int variant, unsigned ovh, int dexp, 
   int32_t* out = gb_alloc(&go, 2 * m * 4, 8, 8 * ((rep + 1) % 8) + 4 * ((rep >> 1) & 1), 4096);  // (an int32 array promises 4-byte alignment only)
   gb_prefill(&go, 1, 0);
   double* ratio = malloc(2 * m * 8);
-  gen_ratios(r, 2 * m, 18, ratio, rep);
+  // the documented domain is |x/d| <= 2^log2overhead (header); up to overhead 18 the generator keeps the property's 2^18, above it
+  // follows the declared overhead - the library may then no longer select its fast kernel, whose window ends at 2^19 - 1/2
+  gen_ratios(r, 2 * m, ovh > 18 ? (int)ovh : 18, ratio, rep);
   for (uint64_t i = 0; i < 2 * m; i++) x[i] = ratio[i] * d;
   set_dispatch(variant != 1);
   CPLX_TO_TNX32_PRECOMP* p = new_cplx_to_tnx32_precomp((uint32_t)m, d, ovh);
@@ -755,6 +757,14 @@ void run_C14(void) {
       case_to_tnx(m, 0, 48, 0, rep);
       case_cplx_to_tnx32(m, 0, 18, 0, rep);
     }
+  // complex -> torus32 with declared overheads above the fast kernel's 18, values up to the declared bound, through the table dispatch
+  // (up to 30: the reference kernel converts x*2^32/d through int64, i.e. needs |x/d| < 2^31 - its own comment says so)
+  for (unsigned ovh = 19; ovh <= 30; ovh++)
+    for (size_t mi = 0; mi < 3; mi++) {
+      static const uint64_t OM[] = {8, 64, 2};
+      for (int v = 0; v <= 2; v++)
+        for (unsigned rep = 40; rep < (th ? 46u : (ovh <= 22 ? 43u : 41u)); rep++) case_cplx_to_tnx32(OM[mi], v, ovh, DIV_EXP[(ovh + mi) % ARRAY_LEN(DIV_EXP)], rep);
+    }
   // distance between input and output modulo the page size: every multiple of 8 bytes in [-256, +248], arrays larger than a page
   {
     static const uint64_t SM[] = {512, 1024, 4096, 64};
@@ -813,5 +823,10 @@ void run_C14(void) {
         if (cfg == DISP_GENERIC && (i & 1)) continue;
         ops_recontent_case("C14 entry points", RNAMES, (int)ARRAY_LEN(RNAMES), RN[i], cfg, G.thorough ? 40 : 6, (unsigned)i, "same_buffers_other_data_calls");
       }
+    // and from a thread with a small stack, at the largest dimensions
+    for (int cfg = DISP_NATIVE; cfg >= DISP_GENERIC; cfg--) {
+      ops_small_stack_case("C14 entry points", RNAMES, (int)ARRAY_LEN(RNAMES), 65536, cfg, 256, G.thorough ? 4 : 1, 0, "small_stack_calls");
+      ops_small_stack_case("C14 entry points", RNAMES, (int)ARRAY_LEN(RNAMES), 16384, cfg, 256, G.thorough ? 4 : 2, 1, "small_stack_calls");
+    }
   }
 }
